@@ -138,10 +138,18 @@ def part_signing(ctx, wt, m, n, how, thorough):
         txid = '%064x' % (0xabc000 + txn[0])
         # the spent outputs: one or two, with output numbers that differ from their position in the spend
         outns = ctx.rng.choice([[0], [3], [2, 0], [1, 4], [2, 0], [1, 4, 0]])
+        # (mostly every cosigner wallet has seen the outputs; sometimes only the creator's has - the others get to know them from the hand-off,
+        #  which works for the forms that carry address and value: object and dict)
+        only_creator = how in ('object', 'dict') and ctx.rng.random() < 0.3
         for w_ in ws:
+            if only_creator and w_ is not ws[seq[0]]:
+                continue
             for on in outns:
                 w_.utxo_add(addr, 1000000, txid, on, confirmations=3)
-        rep = {'op': 'sign', 'wt': wt, 'm': m, 'n': n, 'handoff': how, 'signers_in_order': seq, 'spent_output_numbers': outns}
+        rep = {'op': 'sign', 'wt': wt, 'm': m, 'n': n, 'handoff': how, 'signers_in_order': seq, 'spent_output_numbers': outns,
+               'outputs_known_to': 'the creator only' if only_creator else 'every cosigner wallet'}
+        if only_creator:
+            ctx.count('spent-outputs-known-to-creator-only')
         first = ws[seq[0]]
         created_by = ctx.rng.choice(['transaction_create', 'send'])
         rbf = ctx.rng.random() < 0.4          # the creator signals replace-by-fee: a sequence the importing wallet would not choose itself
